@@ -249,6 +249,7 @@ def check(src, toks, ctx=None):
             spans = [c for c in walk(t.children) if c.type == "code_inline"]
             if spans:
                 runs = [(x.start(), x.end()) for x in re.finditer(r"`+", t.content)]
+                maximal = list(runs)
                 # a backslash in front of a run may escape its first backtick (outside code spans), shortening the run by one
                 runs += [(a + 1, b) for a, b in runs if a > 0 and t.content[a - 1] == "\\" and b - a > 1]
                 runs.sort()
@@ -259,9 +260,14 @@ def check(src, toks, ctx=None):
                         continue
                     rs = [r for r in runs if r[1] - r[0] == ml]
                     found = False
+                    over = None
                     for i in range(len(rs)):
                         for j in range(i + 1, len(rs)):
                             want, stripped = norm_span(t.content[rs[i][1]:rs[j][0]])
+                            if want == ch.content and any(b - a == ml and a >= rs[i][1] and b <= rs[j][0] for a, b in maximal):
+                                # "its backtick strings": the closing one is the first run of the opener's length after the opener
+                                over = (rs[i], rs[j])
+                                continue
                             if want == ch.content:
                                 found = True
                                 cnt("codespan.padded_stripped" if stripped else "codespan.plain")
@@ -271,7 +277,9 @@ def check(src, toks, ctx=None):
                                 break
                         if found:
                             break
-                    if not found:
+                    if not found and over:
+                        errs.append(("codespan-spans-over-closer", f"code_inline {ch.content!r} (markup {ch.markup!r}) runs past a backtick string of its own length in {t.content!r}"))
+                    elif not found:
                         errs.append(("codespan-content", f"code_inline {ch.content!r} (markup {ch.markup!r}) is not the text between two such backtick runs of {t.content!r}"))
                     else:
                         cnt("codespan.checked")
